@@ -254,6 +254,7 @@ pub fn run(cfg: &Cfg) -> Outcome {
     for i in [0usize, 5, items.len() / 2, items.len() - 1] {
         acc.sample(json!({"expr": items[i].text, "bounds_hours": bounds().iter().map(|b| b.num_hours()).collect::<Vec<_>>()}));
     }
+    check_tz_bounded(None, &mut acc);
     let mut o = Outcome::new("model_checking", acc);
     o.exhaustive = true;
     o.cov("family_size", json!(items.len()));
@@ -263,7 +264,90 @@ pub fn run(cfg: &Cfg) -> Outcome {
     o
 }
 
+/// The same clauses in time-zone contexts, around UTC-offset transitions: the bounded answer is compared
+/// with the unbounded answer *of the same context* (so the open time-zone findings of C03 cancel out).
+/// "At most B − 24 h after" / "more than B after" are only decided when they hold both in absolute time
+/// and in wall-clock time (the two differ by the offset change across a transition).
+pub fn check_tz_bounded(only: Option<(&str, &str)>, acc: &mut Acc) {
+    use chrono::{Offset, TimeZone};
+    use chrono_tz::Tz;
+    use opening_hours::localization::TzLocation;
+    use opening_hours::Context;
+    let zones: [Tz; 4] = [chrono_tz::Europe::Paris, chrono_tz::America::New_York, chrono_tz::Australia::Lord_Howe, chrono_tz::Pacific::Apia];
+    let exprs = ["Mo-Fr 10:00-18:00", "02:15-02:45", "Su 01:00-03:00 unknown", "Jan 01", "24/7", "week 10 Mo 22:00-26:00", "00:00-24:00; 02:20-02:21 off"];
+    let bounds = [Duration::days(1), Duration::hours(25), Duration::hours(36), Duration::days(2), Duration::days(7), Duration::days(366)];
+    let wall = |tz: Tz, u: NaiveDateTime| u + Duration::seconds(tz.offset_from_utc_datetime(&u).fix().local_minus_utc() as i64);
+    for tz in zones {
+        let mut trs = crate::props::c09::transitions(tz, 2024, 2025);
+        trs.extend(crate::props::c09::transitions(tz, 2011, 2012).into_iter().filter(|t| (t.after - t.before).abs() > 7200));
+        for e in exprs {
+            if only.map(|(oe, oz)| oe != e || oz != tz.name()).unwrap_or(false) {
+                continue;
+            }
+            let Ok(oh) = OpeningHours::parse(e) else { continue };
+            let plain = oh.clone().with_context(Context::default().with_locale(TzLocation::new(tz)));
+            for b in bounds {
+                let bounded = oh.clone().with_context(Context::default().with_locale(TzLocation::new(tz)).approx_bound_interval_size(b));
+                for tr in &trs {
+                    for k in -96i64..=96 {
+                        let u = tr.t + Duration::minutes(30 * k);
+                        let t = tz.from_utc_datetime(&u);
+                        acc.add("tz_bounded_points", 1);
+                        acc.add("evaluations", 1);
+                        let case = json!({"tz_bounded": true, "expr": e, "tz": tz.name(), "bound_minutes": b.num_minutes(), "utc": fmt_dt(u)});
+                        let feats = vec!["tz_context".to_string()];
+                        let head = format!("[{}] `{e}` bound {} h at {}Z", tz.name(), b.num_hours(), fmt_dt(u));
+                        let r = catch(|| (plain.state(t), bounded.state(t), plain.next_change(t).map(|x| x.naive_utc()), bounded.next_change(t).map(|x| x.naive_utc())));
+                        let (s0, s1, n0, n1) = match r {
+                            Ok(x) => x,
+                            Err(p) => {
+                                acc.violate(Violation::new("panic_in_tz_context", feats, case, format!("{head}: panicked: {} at {}", p.msg, p.loc)));
+                                continue;
+                            }
+                        };
+                        let mut ok = true;
+                        if s0 != s1 {
+                            acc.violate(Violation::new("state_changed_by_bound", feats.clone(), case.clone(), format!("{head}: state {s1:?} with the bound, {s0:?} without")));
+                            ok = false;
+                        }
+                        match (n0, n1) {
+                            (_, None) => {
+                                if let Some(x) = n0 {
+                                    let (da, dw) = (x - u, wall(tz, x) - wall(tz, u));
+                                    if da <= b - Duration::hours(24) && dw <= b - Duration::hours(24) {
+                                        acc.violate(Violation::new("bounded_next_change_none_within_B_minus_24h", feats.clone(), case.clone(), format!("{head}: next_change = none although the exact change {}Z lies {} min after the query", fmt_dt(x), da.num_minutes())));
+                                        ok = false;
+                                    }
+                                }
+                            }
+                            (Some(x), Some(y)) if x == y => {
+                                let (da, dw) = (x - u, wall(tz, x) - wall(tz, u));
+                                if da > b && dw > b {
+                                    acc.violate(Violation::new("bound_not_applied_beyond_B", feats.clone(), case.clone(), format!("{head}: next_change = {}Z lies {} min after the query, more than the bound: none was expected", fmt_dt(y), da.num_minutes())));
+                                    ok = false;
+                                }
+                            }
+                            (exact, Some(y)) => {
+                                acc.violate(Violation::new("bounded_next_change_neither_exact_nor_none", feats.clone(), case.clone(), format!("{head}: next_change = {}Z with the bound, {:?}Z without", fmt_dt(y), exact.map(fmt_dt))));
+                                ok = false;
+                            }
+                        }
+                        if ok {
+                            acc.add("traces_validated_against_impl", 1);
+                        }
+                    }
+                }
+            }
+        }
+    }
+}
+
 pub fn replay(cfg: &Cfg, case: &Value) -> Vec<Violation> {
+    if case.get("tz_bounded").is_some() {
+        let mut acc = Acc::new();
+        check_tz_bounded(Some((case.get("expr").and_then(|v| v.as_str()).unwrap_or(""), case.get("tz").and_then(|v| v.as_str()).unwrap_or(""))), &mut acc);
+        return acc.groups.into_values().flat_map(|g| g.examples).collect();
+    }
     let mut acc = Acc::new();
     let Some(text) = case.get("expr").and_then(|v| v.as_str()) else { return vec![] };
     let c = ctx::by_name(&cfg.repo, case.get("ctx").and_then(|v| v.as_str()).unwrap_or("empty"));
